@@ -224,6 +224,22 @@ func init() {
 		for _, e := range exprs {
 			u.Paths = append(u.Paths, PathRow{Pred: true, Chain: []wire.Node{{K: "un", Op: "exists", X: e.Chain}}})
 		}
+		// exists(e) inside a filter below .**: strict mode must still look at
+		// every item of e (an item that fails makes it unknown), although
+		// structural errors are ignored there
+		for _, e := range exprs {
+			if len(e.Chain) == 0 || e.Chain[0].K != "root" {
+				continue
+			}
+			e2 := append([]wire.Node{{K: "cur"}}, e.Chain[1:]...)
+			ex := wire.Node{K: "un", Op: "exists", X: e2}
+			unk := wire.Node{K: "un", Op: "isunknown", X: []wire.Node{ex}}
+			not := wire.Node{K: "un", Op: "not", X: []wire.Node{ex}}
+			for _, c := range []wire.Node{ex, unk, not} {
+				cc := c
+				u.Paths = append(u.Paths, PathRow{Chain: []wire.Node{{K: "root"}, {K: "any", First: 0, Last: -1}, {K: "filter", P: &cc}}})
+			}
+		}
 		u.cross([]bool{true, false})
 		rc.cov("predicate_checks_judged_against_the_rules", len(u.Cases))
 		rc.execFamily(u, "C11", "C01")
